@@ -184,7 +184,7 @@ impl Prop for C15 {
         let n = xops().len() as u64;
         match tier {
             // all histories of length 1 and 2, every 16th of length 3, then random ones
-            Tier::Quick => n + n * n + n * n * n / 16 + 150_000,
+            Tier::Quick => n + n * n + n * n * n / 16 + 400_000,
             // all histories up to length 3
             Tier::Thorough => n + n * n + n * n * n + 300_000,
         }
@@ -750,7 +750,7 @@ impl C05 {
 impl Prop for C05 {
     fn cases(&self, tier: Tier) -> u64 {
         match tier {
-            Tier::Quick => 30_000,
+            Tier::Quick => 90_000,
             Tier::Thorough => 1_000_000,
         }
     }
